@@ -3,7 +3,7 @@
 L=$1
 cd /verif
 head=$(git -C /repo rev-parse --short HEAD)
-for p in C01 C02 C03 C04 C05 C06 C07 C08 C11 C12 C14 C15 C16 C18 C20; do d=${p}$L; mkdir -p seeded/$d; cp -r /tmp/mut/$d/out/* seeded/$d/
+for p in ${PROPS:-C01 C02 C03 C04 C05 C06 C07 C08 C11 C12 C14 C15 C16 C18 C20}; do d=${p}$L; mkdir -p seeded/$d; cp -r /tmp/mut/$d/out/* seeded/$d/
 python3 - <<EOF
 import json
 p='/verif/seeded/$d/meta.json'
@@ -26,4 +26,4 @@ json.dump(m,open('/verif/seeded/$d/meta.json','w'),indent=1)
 print('$d', 'CONFIRMED' if ok else 'NOT CONFIRMED '+json.dumps({k:v for k,v in r.items() if k!='checks'})[:500], {c:(v['rc'],[x.split("'")[1] for x in v['lines'] if 'class' in x][:4]) for c,v in ch.items()})
 EOF
 done
-for p in C01 C02 C03 C04 C05 C06 C07 C08 C11 C12 C14 C15 C16 C18 C20; do git -C /repo worktree remove --force /tmp/mut/${p}$L/wt 2>/dev/null; done; git -C /repo worktree prune
+for p in ${PROPS:-C01 C02 C03 C04 C05 C06 C07 C08 C11 C12 C14 C15 C16 C18 C20}; do git -C /repo worktree remove --force /tmp/mut/${p}$L/wt 2>/dev/null; done; git -C /repo worktree prune
